@@ -21,18 +21,18 @@ def spec(tier):
             for wname, pp in workloads.items():
                 if not th and pools > 1 and wname != "dags" and algo != "priority-pool":
                     continue
-                for dur in ((12, 0.5, 3) if th else (12,)):
+                for dur in ((14, 0.5, 3) if th else (12,)):
                     cfg = dict(algo=algo, pools=pools, oc=oc, multi=multi, duration=dur, pipes=pp)
                     nm = f"runs_{algo}_P{pools}_{'multi' if multi else 'single'}_{wname}_d{dur}"
                     if algo in ("priority", "priority-pool"):
-                        for (clo, chi) in ((1, 9), (10, 20)):
+                        for (clo, chi) in (((1, 9), (10, 20), (21, 40)) if th else ((1, 9), (10, 20))):
                             obs.append(CH(name=nm + f"_cpu{clo}", harness="rsim.runs_to_end", sym=dict(cpus=I(clo, chi), ma=I(1, 8), mb=I(1, 8), ta=I(0, 3)),
                                           fixed=dict(cfg=cfg, ram=25, da=2, db=1), timeout=1500))
-                        obs.append(CH(name=nm + "_ram", harness="rsim.runs_to_end", sym=dict(ram=I(1, 40), ma=I(1, 8), ta=I(0, 3)),
+                        obs.append(CH(name=nm + "_ram", harness="rsim.runs_to_end", sym=dict(ram=I(1, 80 if th else 40), ma=I(1, 8), ta=I(0, 3)),
                                       fixed=dict(cfg=cfg, cpus=3, da=1, db=2, mb=1), timeout=1500))
                     else:
                         obs.append(CH(name=nm, harness="rsim.runs_to_end",
-                                      sym=dict(cpus=I(1, 20), ram=I(1, 40), ma=I(1, 8), mb=I(1, 8), ta=I(0, 3), da=I(1, 2)),
+                                      sym=dict(cpus=I(1, 40 if th else 20), ram=I(1, 80 if th else 40), ma=I(1, 8), mb=I(1, 8), ta=I(0, 3), da=I(1, 2)),
                                       fixed=dict(cfg=cfg, db=1), timeout=1500))
     # overbook: abandonment while sibling operators are queued and CPUs are scarce
     cfg2 = dict(algo="overbook", pools=2, oc=True, multi=False, duration=12,
